@@ -424,7 +424,7 @@ func shapeClass(shape string) string {
 }
 
 func checkC01(c *Ctx) {
-	c.rule = "programs 输出‹expr›: (a) every binary operator x every ordered pair of a 44-value boundary pool passed as input variables; (b) every unbraced triple a op1 b op2 c over the 16 operators x operand classes, rendered without braces from its natural (manual precedence) tree; (e) operands that update a variable in place (自增 / 自减) next to operands that read it; (d) 为 / == / 不为 / /= between container literals (lists and dictionaries nested to depth 2 over 空, numbers, texts, booleans) and a variant with one leaf changed, an entry dropped / added, keys reordered or renamed; (c) random trees (literals in every documented numeric spelling with math/big values, variables, probes that display their evaluation order), braces only where the manual's precedence requires them. Oracle: independent reference evaluator (IEEE doubles, floor division, a-floor(a/b)*b, structural equality, short circuit). distinct_nontrivial = distinct (family, expression shape incl. operators, expected outcome kind) among cases the reference specifies"
+	c.rule = "programs 输出‹expr›: (a0) every binary operator with the same operand on both sides (the variable itself, a copy, the same list item; collections holding a NaN among the values); (a) every binary operator x every ordered pair of a 44-value boundary pool passed as input variables; (b) every unbraced triple a op1 b op2 c over the 16 operators x operand classes, rendered without braces from its natural (manual precedence) tree; (e) operands that update a variable in place (自增 / 自减) next to operands that read it; (d) 为 / == / 不为 / /= between container literals (lists and dictionaries nested to depth 2 over 空, numbers, texts, booleans) and a variant with one leaf changed, an entry dropped / added, keys reordered or renamed; (c) random trees (literals in every documented numeric spelling with math/big values, variables, probes that display their evaluation order), braces only where the manual's precedence requires them. Oracle: independent reference evaluator (IEEE doubles, floor division, a-floor(a/b)*b, structural equality, short circuit). distinct_nontrivial = distinct (family, expression shape incl. operators, expected outcome kind) among cases the reference specifies"
 	c.assumptions = []string{"reference evaluator znref implements the manual/property semantics; cases it marks unspecified are skipped and counted", "doubles compared bit-wise (NaN==NaN, +0 != -0)"}
 	rng := c.Rand("c01")
 	var progs []*zr.Program
@@ -436,6 +436,35 @@ func checkC01(c *Ctx) {
 		shapes = append(shapes, shape)
 	}
 
+	// (a0) the same operand on both sides: every operator x every pool value (and collections that
+	// hold a NaN / ±0 / nested collections) as `甲 op 甲`, `甲 op {甲}` and through a copy `乙`:
+	// equality is structural (IEEE for numbers: a NaN equals nothing, not even itself), whichever
+	// elements happen to be compared
+	{
+		nan := Num(math.NaN())
+		selfPool := append(c01BoundaryPool(), List(nan), List(Num(1), List(nan)), Dict([]string{"甲"}, []Val{nan}), Dict([]string{"a", "b"}, []Val{Num(1), List(Num(2), nan)}),
+			List(Num(0), Num(math.Copysign(0, -1))), List(Num(math.Inf(1))), List(List(), Dict(nil, nil)))
+		for _, op := range c01Ops {
+			for _, a := range selfPool {
+				for form := 0; form < 3; form++ {
+					var e zr.Expr
+					body := []zr.Stmt{}
+					switch form {
+					case 0:
+						e = zr.Bin{Op: op, L: zr.N("甲"), R: zr.N("甲")}
+					case 1:
+						body = append(body, zr.LetS("乙", zr.N("甲")))
+						e = zr.Bin{Op: op, L: zr.N("甲"), R: zr.N("乙")}
+					default:
+						body = append(body, zr.LetS("表", zr.ListLit{Items: []zr.Expr{zr.N("甲")}}))
+						e = zr.Bin{Op: op, L: zr.Index{Recv: zr.N("表"), Idx: intLit(1)}, R: zr.Index{Recv: zr.N("表"), Idx: intLit(1)}}
+					}
+					p := &zr.Program{Inputs: []string{"甲"}, Body: append(body, zr.Return{E: e})}
+					add(p, map[string]Val{"甲": a}, fmt.Sprintf("self/%s/%s/%d", op, a.T, form))
+				}
+			}
+		}
+	}
 	// (a) operator x boundary pairs
 	pool := c01BoundaryPool()
 	for _, op := range c01Ops {
